@@ -148,8 +148,8 @@ func c02Case(c *core.Ctx, pc parseCase) {
 
 func init() {
 	core.Register(&core.Check{
-		ID:   "C02",
-		Rule: "cases = known-finding witnesses ++ PRNG mix of {hostile inputs (of which the silently accepted ones count), corpus snippets, line-terminator rewrites, block-crossing concatenations, generated programs in PRNG trivia layouts} x PRNG version; every parse that delivers no error is printed and compared byte for byte with its source; non-trivial = silent parse whose tree has >= 2 nodes; distinct by (input bytes, version)",
+		ID:          "C02",
+		Rule:        "cases = known-finding witnesses ++ PRNG mix of {hostile inputs (of which the silently accepted ones count), corpus snippets, line-terminator rewrites, block-crossing concatenations, generated programs in PRNG trivia layouts} x PRNG version; every parse that delivers no error is printed and compared byte for byte with its source; non-trivial = silent parse whose tree has >= 2 nodes; distinct by (input bytes, version)",
 		Assumptions: []string{"an input is judged only when the parser reported no error for it (whether it is valid PHP is C03/C06's business)"},
 		Plan:        func(p core.Params) int { return p.Pick(200000, 4000000) },
 		Run: func(c *core.Ctx, idx int) {
